@@ -31,11 +31,17 @@ def main(tier, replay):
             if not quick:
                 J('two-short-2rec-%s-c%d' % (n, cd), n, [0, 2, 1, 1, 1, cd, 5, 0, 1, 0])
                 J('one-short-free-%s-c%d' % (n, cd), n, [1, 1, -1, 1, 1, cd, 4, 1, 0, 0])
+    # long thrift structs: a footer of 300 bytes (the 4-byte length field has a non-zero second byte) and headers of 300 bytes
+    for n in ('p1', 'p4'):
+        for fr in (3, 6, 4):
+            # a row group per record: the real footer of the native replay is then longer than 256 bytes too
+            J('long-headers-frag%d-%s' % (fr, n), n, [0, 4, 1, 1, 1, 0, fr, 2, 1, 0])
+            jobs[-1]['opt']['hdr_len'] = 300
     J('sens-rows', 'p1', [0, 2, 1, 1, 1, 0, 3, 0, 1, 1], expect='Rows')
     run_program_jobs(c, mod, infos, jobs, native_templates=NATIVE)
     c.programs = len(P)
     c.bounds = {'fragmentation': 'one byte per Read; the same with the last byte delivered together with io.EOF; every multi-byte Read returns ceil(len/2); exactly ONE multi-byte Read (symbolic call index, so every call is covered) is short by every count 1..len-1; exactly TWO such Reads (every pair of calls, every pair of counts) on one-record files',
-                'files': '1-2 records of fixed structure, symbolic values, one row group, page size 1 and 2, each codec; page payloads <= ~20 bytes',
+                'header lengths': 'thrift headers/footers of 2-4 bytes, and of 300 bytes in the long-headers jobs', 'files': '1-2 records of fixed structure, symbolic values, one row group, page size 1 and 2, each codec; page payloads <= ~20 bytes',
                 'outside': 'three or more independently short reads with arbitrary counts in one run (beyond the byte-wise and halving patterns); fragmentation inside thrift/snappy/gzip internals (A2: thrift headers are read byte-wise through the source by the stub)'}
     c.assumptions = [STUB_ASSUMPTIONS[k] for k in ('A1', 'A2', 'A3', 'A4', 'A6')]
     c.finish('paths = (index of the short Read call(s)) x (short count(s)) for the symbolic-index modes, one path for the deterministic patterns; a path is non-trivial when at least one obligation went to the solver',
